@@ -48,9 +48,9 @@ var propertyConfigs = map[string]*propertyConfig{
 	"C15": {
 		ID: "C15", Packages: []string{"./..."}, Level: "proof",
 		Explain: "Refusal clause of the property: Combiner.GenAdditiveShare under the precondition len(activesPoints) < threshold returns a non-nil error on every path (and no path with fewer than t actives reaches the combination loop).  " +
-			"Plus, on the typed-AST engine: ring.Ring.NewRNSScalarFromUInt64 (the RNS form of a party's public point, from which the Lagrange coefficients are built) returns exactly v mod q_i for every modulus of the level and every uint64 v.  " +
+			"Plus, on the typed-AST engine: ring.Ring.NewRNSScalarFromUInt64 (the RNS form of a party's public point, from which the Lagrange coefficients are built) returns exactly v mod q_i for every modulus of the level and every uint64 v; the RNS scalar operations the Lagrange coefficient is assembled from (MFormRNSScalar, NegRNSScalar, SubRNSScalar, MulRNSScalar) compute, modulus by modulus, the Montgomery form, q - x, the reduced difference and the lazy Montgomery product of their inputs, for same-or-disjoint operands.  " +
 			"NewCombiner (abstract contract, bounded instance: one Q modulus, no P, at most two other parties) owes Combiner.lagrangeCoeff its precondition: the two public points are distinct modulo every modulus (ghost predicate distinctmod); it does not establish it - recorded as a known finding.",
-		Assumptions: append(append([]string{}, engineBAssumptions...), "NOT decided (yet): that the Lagrange factors are x_j/(x_j-x_i) modulo every q and that the shares of any t parties sum to the secret (planned on Engine A for ring/scalar.go); order independence"),
+		Assumptions: append(append([]string{}, engineBAssumptions...), "NOT decided: Ring.Inverse (Fermat inverse through ModexpMontgomery), hence that the assembled factor IS x_j/(x_j-x_i); that the shares of any t parties sum to the secret; order independence"),
 		Trusted: stdTrusted,
 	},
 	"C18": {
